@@ -10,9 +10,9 @@ from ..gen import build, traitx
 def schemas_for(tier):
     out = []
     for bo in ("littleEndian", "bigEndian"):
-        out.append(("kinds", kinds.kinds_schema(bo)))
+        out.append(("kinds", kinds.kinds_schema(bo, presmix=False)))
         tag = "le" if bo == "littleEndian" else "be"
-        out.append(("kinds-rich", kinds.decorate(kinds.kinds_schema(bo, package="rich_" + tag))))
+        out.append(("kinds-rich", kinds.decorate(kinds.kinds_schema(bo, package="rich_" + tag, presmix=False))))
     cat = shapes.catalogue(tier)
     step = max(1, len(cat) // (4 if tier == "quick" else 20))
     out += [("catalogue", s) for s, _ in cat[::step]]
